@@ -620,9 +620,29 @@ impl Workload for DamageWorkload {
                         }
                         let after: BTreeMap<String, u64> = dir.listing().into_iter().filter_map(|n| dir.digest(&n).map(|d| (n, d))).collect();
                         if after != before {
-                            let changed: Vec<&String> = after.keys().filter(|k| before.get(*k) != after.get(*k)).chain(before.keys().filter(|k| !after.contains_key(*k))).collect();
-                            viol = Some((format!("proc:{sc}-writes-after-rejecting"), format!("ska {sc} on {what} of {} failed ({}) but changed {changed:?}", c.file.kind, r.status_str())));
-                            break;
+                            // A subcommand that refuses its input may leave other things behind (an
+                            // empty output, a temporary file): not C19's business. What must not
+                            // appear is a readable table - a new or rewritten file that a loader
+                            // accepts although the input was rejected.
+                            let changed: Vec<String> = after.keys().filter(|k| before.get(*k) != after.get(*k)).cloned().collect();
+                            probe("c19_rejecting_subcommand_left_other_files_changed");
+                            let mut bad = None;
+                            for f in &changed {
+                                let pth = dir.p(f);
+                                let pp = pth.to_str().unwrap();
+                                if load_as::<u64>(pp).is_ok() || load_as::<u128>(pp).is_ok() {
+                                    bad = Some(f.clone());
+                                }
+                            }
+                            for f in &changed {
+                                if f != "victim.skf" {
+                                    dir.remove(f);
+                                }
+                            }
+                            if let Some(f) = bad {
+                                viol = Some((format!("proc:{sc}-writes-a-table-after-rejecting"), format!("ska {sc} on {what} of {} failed ({}) but left {f}, which a loader accepts", c.file.kind, r.status_str())));
+                                break;
+                            }
                         }
                     }
                     if viol.is_some() {
